@@ -4,11 +4,15 @@
 (* spec/Program.tla.  A Prog event is one process: the configuration the   *)
 (* driver realised (files present / missing / unwritable, flags), the way  *)
 (* the process ended, whether stderr was empty, which output files exist   *)
-(* afterwards and whether the plain report was printed.                    *)
+(* afterwards (`written`: files that exist and are not what the path held  *)
+(* before the run; `stale`: files in which the mark of the earlier         *)
+(* document is still found) and whether the plain report was printed.      *)
 (*   Terminal(e)   C16: deliberate exit code, error reported on stderr     *)
 (*   Refused(e)    C19: a run refused with 1 / 64 / 65 leaves no result    *)
-(*   Conforms(e)   DRIFT: exit code, files written and report as           *)
-(*                 Program!Outcome(cfg) says                               *)
+(*   Fresh(e)      C17: a file the run wrote holds nothing of the document *)
+(*                 the path held before                                    *)
+(*   Conforms(e)   DRIFT: exit code, files written, files left as they     *)
+(*                 were and report as Program!Outcome(cfg) says            *)
 (***************************************************************************)
 EXTENDS ProgramDefs, Json, IOUtils, TLC
 Rec == ndJsonDeserialize(IOEnv.TRACE)
@@ -24,10 +28,13 @@ Terminal(e) ==
 Refused(e) ==
   IF e.how \in {"1", "64", "65"} /\ (SeqSet(e.written) \cap {"json", "xml", "txt"} # {} \/ e.printed)
   THEN {"result_despite_refusal"} ELSE {}
+Fresh(e) ==
+  IF SeqSet(e.written) \cap SeqSet(e.stale) # {} THEN {"written_file_keeps_content_of_an_earlier_run"} ELSE {}
 Conforms(e) ==
   IF e.how \notin ExitNames THEN {}
   ELSE LET o == Outcome(CfgOf(e)) IN
        (IF ToString(o.exit) # e.how THEN {"exit_" \o e.how \o "_specification_" \o ToString(o.exit)} ELSE {})
        \cup (IF o.written # SeqSet(e.written) THEN {"files_written_differ"} ELSE {})
+       \cup (IF o.stale # SeqSet(e.stale) THEN {"files_left_as_they_were_differ"} ELSE {})
        \cup (IF o.printed # e.printed THEN {"report_printed_differs"} ELSE {})
 =============================================================================
